@@ -92,8 +92,7 @@ def run(ctx):
     if rc != 0:
         ctx.oblige("run:driver", False, out[-800:])
 
-    # while the LossyUtf8 findings are still listed as "known" the unchanged tree follows the pre-fix port
-    expect_orig = any(k.get("status") == "known" and str(k.get("id", "")).startswith("C17-lossy") for k in ctx.known)
+    probe = {}
     evals = 0
     kinds = Counter()
     variants = Counter()
@@ -135,6 +134,10 @@ def run(ctx):
             continue
         cid, kv = parse_kv_line(line)
         kind = kv.get("kind")
+        if kind == "V":
+            # which LossyUtf8 port the real code follows was PROBED (ab\\xe2 / ab\\xff), not looked up
+            probe = {"fix_final_invalid_in_effect": kv.get("fixfinal"), "fix_truncated_tail_in_effect": kv.get("fixtrunc"), "raw": kv.get("raw")}
+            continue
         if kind == "P":
             evals += 1
             kinds["P"] += 1
@@ -234,10 +237,7 @@ def run(ctx):
                 distinct.add(hashlib.sha1(spec.encode()).hexdigest())
             continue
         variants[corr] += 1
-        if corr == "orig" and not expect_orig:
-            # the committed LossyUtf8 is the repaired one: matching only the pre-fix port is a regression
-            report_corr(cid, kv, "implementation matches the PRE-FIX LossyUtf8 port (known_findings status fixed), not the committed one", "lossyFixed=LossyUtf8")
-        if corr not in ("orig", "fixed", "both"):
+        if corr != "ok":
             name = {"L": "lossy=LossyUtf8", "R": "render=HtmlRenderer::render", "H": "render=HtmlRenderer::render"}[kind]
             report_corr(cid, kv, "model and implementation disagree (%s): %s" % (name, corr), name)
         if kind == "L":
@@ -264,7 +264,7 @@ def run(ctx):
             if kv.get("capirc", "-") != "-":
                 dist["R:through-the-C-API"] += 1
                 multi["capi_compared"] += 1
-                if kv.get("capirc") == "0" and corr in ("orig", "fixed", "both"):
+                if kv.get("capirc") == "0" and corr == "ok":
                     multi["capi_equal"] += 1
                 if kv.get("capirc") != "0":
                     report_judge(cid, kv, "capi-error-code", "ts_highlighter_highlight returned %s on a valid document" % kv.get("capirc"))
@@ -314,11 +314,10 @@ def run(ctx):
         if kind != "H" and len(samples) < 8 and evals % 1499 == 1:
             samples.append({"case": cid, "spec": spec[:300], "result": kv})
 
-    # which port of LossyUtf8 the implementation follows must be the same on every case
-    if variants["orig"] and variants["fixed"]:
+    if probe.get("fix_final_invalid_in_effect") not in ("0", "1") or probe.get("fix_truncated_tail_in_effect") not in ("0", "1"):
         corr_bad += 1
-        ctx.violation("corr", "implementation matches the unchanged LossyUtf8 port on some inputs and the repaired port on others",
-                      {"variants": dict(variants)}, fingerprint={"corr": "mixed-variants"}, found_input=False)
+        ctx.violation("corr", "the LossyUtf8 probes (ab\\xe2, ab\\xff) match neither the old nor the repaired behaviour: %s" % probe,
+                      {"probe": probe}, fingerprint={"corr": "lossy-probe"}, found_input=False)
     ctx.oblige("corr:lossy+render=LossyUtf8+HtmlRenderer", corr_bad == 0, "%d disagreements; variants %s" % (corr_bad, dict(variants)))
     ctx.oblige("corr:lossySpec=String::from_utf8_lossy", spec_bad == 0, "%d disagreements" % spec_bad)
     sizes.sort()
@@ -334,7 +333,7 @@ def run(ctx):
                 "through Highlighter::highlight (one highlighter reused for all documents) and HtmlRenderer.  Non-trivial := H with >=2 nested "
                 "highlights or >=1 injection layer; N (multi-layer merge model vs real stream, no locals) with >=2 layers; R well-formed with >=1 highlight; L with >=1 byte >= 0x80.  Distinct by SHA-1 of the case spec.",
         "samples": samples,
-        "kinds": dict(kinds), "implementation_matches_port": dict(variants),
+        "kinds": dict(kinds), "corr_results": dict(variants), "lossy_port_selected_by_probe": probe,
         "distribution": dict(sorted(dist.items())),
         "highlight_doc_bytes": {"min": sizes[0] if sizes else 0, "median": sizes[len(sizes) // 2] if sizes else 0, "max": sizes[-1] if sizes else 0},
         "judge_failures_by_clause_and_cause": dict(causes),
